@@ -25,6 +25,7 @@ type Run struct {
 	Spec     *PropSpec
 	Results  []*FuncResult
 	Extra    []*Obligation // table / lemma obligations produced by property-specific generators
+	initOK   bool          // writersUnderContract: a package initialiser is not counted as an uncontracted writer
 	Bounded  []map[string]any
 	Notes    []string
 	Assume   map[string]bool
@@ -101,6 +102,16 @@ func cmdCheck(args []string) int {
 		return 2
 	}
 	r.Prog = prog
+	// package invariants written for other properties are not in force in this check
+	for _, pc := range prog.Contracts {
+		var keep []*Clause
+		for _, inv := range pc.Invariants {
+			if inv.Props == "" || propListed(inv.Props, r.Prop) {
+				keep = append(keep, inv)
+			}
+		}
+		pc.Invariants = keep
+	}
 	r.Eng = &Engine{prog: prog, frame: BuildFrame(prog)}
 	r.logf("loaded %d packages, frame: %d functions, %d escaping; %v", len(prog.Pkgs), len(r.Eng.frame.nodes), len(r.Eng.frame.esc), time.Since(r.Start))
 	r.Findings, err = LoadFindings(filepath.Join(*out, "known_findings.txt"))
@@ -350,7 +361,7 @@ func (r *Run) report(all []*Obligation, unbound, engErrs []string) int {
 	trusted = append(trusted, tframes...)
 	trusted = append(trusted, r.Spec.TrustedBase...)
 	trusted = append(trusted, "govc translation of the Go subset (DESIGN.md §3.4)", "go/types", "z3 4.8.12 / z3 5.1.0 / cvc5 1.0.3")
-	assumptions := []string{"integers are mathematical in mode int (no overflow obligations)", "no-panic obligations are generated only in functions marked safe; elsewhere a nil dereference ends the path (a panicking execution reaches no later return or sink) and other panics are not modelled", "sequential semantics (no interleaving)", "slices have value semantics (aliasing through shared backing arrays is not modelled)", "library decoders (encoding/*, fmt.Sscan*, database/sql Scan) write through the pointers they are given during the call and do not keep them"}
+	assumptions := []string{"integers are mathematical in mode int (no overflow obligations)", "no-panic obligations are generated only in functions marked safe; elsewhere a nil dereference ends the path (a panicking execution reaches no later return or sink) and other panics are not modelled", "sequential semantics (no interleaving; what a goroutine started by a go statement does is not an effect of the call that starts it)", "slices have value semantics (aliasing through shared backing arrays is not modelled)", "library decoders (encoding/*, fmt.Sscan*, database/sql Scan) write through the pointers they are given during the call and do not keep them"}
 	var as []string
 	for a := range r.Assume {
 		as = append(as, a)
